@@ -137,3 +137,43 @@ prop("C11", [
                                  "derived promises of void-returning continuations and of non-rethrowing rejection "
                                  "handlers are left open by the property and not compared"],
     bounds={"quick": "K=4, combinators over <=2 inputs", "thorough": "K=5, combinators over <=3 inputs (until the deadline)"})
+
+prop("C13", [
+    {"name": "c13_queue", "sources": ["c13_queue.cc"], "c_sources": ["common/vsched.c"], "flavour": "asan",
+     "args": {"quick": ["--timeout-ms=120000", "--deadline-s=170"],
+              "thorough": ["--thorough=1", "--timeout-ms=3000000", "--deadline-s=2400"]}},
+    {"name": "c13_queue_tsan", "sources": ["c13_queue.cc"], "c_sources": ["common/vsched.c"], "flavour": "tsan",
+     "args": {"quick": ["--timeout-ms=120000", "--deadline-s=170", "--last=12"],
+              "thorough": ["--timeout-ms=3000000", "--deadline-s=1200"]}},
+],
+    rule="one case = (P producers x k pushes, preemption bound, shard): stateless DFS over all schedules of the "
+         "hooked points in Queue::push/pop and PollableQueue::push/pop (atomic exchange, link store, tail read, "
+         "eventfd write/read) with real threads under the cooperative scheduler, one consumer draining like "
+         "Transport::handleWriteQueue; oracle per execution: popped multiset = pushed, per-producer FIFO, and "
+         "deadlock (consumer blocked on a non-readable eventfd with producers finished) = missed wake-up / loss; the "
+         "same schedules are repeated in a TSan build whose hand-offs are raw futex calls; states = nodes of the "
+         "schedule tree, transitions = scheduling points executed, non-trivial = executions with >= 1 preemption",
+    assumptions=COMMON_ASSUME + ["sequentially consistent interleavings at the hooked points; weak-memory reorderings "
+                                 "are outside the model (plain-data races are still seen by the TSan pass)"],
+    bounds={"quick": "1x1,1x2,2x1,2x2,3x1 with preemption bound 0..2; 1x1,1x2 unbounded",
+            "thorough": "+ 1x3 pb3/unbounded, 2x1 unbounded, 2x2,3x1,2x3,3x2 pb3 (until the deadline)"})
+
+prop("C12", [
+    {"name": "c12_async", "sources": ["c12_async.cc"], "c_sources": ["common/vsched.c"], "flavour": "asan",
+     "args": {"quick": ["--maxbound=2", "--timeout-ms=120000", "--deadline-s=170"],
+              "thorough": ["--thorough=1", "--maxbound=3", "--timeout-ms=3000000", "--deadline-s=2400"]}},
+    {"name": "c12_async_tsan", "sources": ["c12_async.cc"], "c_sources": ["common/vsched.c"], "flavour": "tsan",
+     "args": {"quick": ["--maxbound=1", "--timeout-ms=120000", "--deadline-s=170"],
+              "thorough": ["--maxbound=2", "--timeout-ms=3000000", "--deadline-s=1200"]}},
+],
+    rule="one case = (scenario, preemption bound): two or three real threads on real Async::Promise objects - "
+         "{resolve || then}, {resolve || then;then}, {reject || then}, {settle p || then on a promise derived from p by "
+         "a value-returning / promise-returning / rethrowing continuation, created before or inside the race, one or "
+         "two levels deep}, {resolve || then || then} - gated at the async.h hook points (lock acquisition, state "
+         "load/store, continuation-list append/walk, construct); stateless DFS over all schedules within the bound; "
+         "oracle: every continuation ran exactly once with the settled outcome, no exception, no deadlock; the same "
+         "schedules in a TSan build (raw-futex hand-off) must raise no race report; states = nodes of the schedule "
+         "tree; non-trivial = executions with >= 1 preemption",
+    assumptions=COMMON_ASSUME + ["sequentially consistent interleavings at the hooked points"],
+    bounds={"quick": "9 scenarios, preemption bound 0..2 (TSan pass: 0..1)",
+            "thorough": "bound 0..3, and every schedule (unbounded) for the 2-thread scenarios (until the deadline)"})
